@@ -99,6 +99,20 @@ fn ids_in_order<'a>(it: impl Iterator<Item = &'a Tr>, n: usize, bytes_ok: bool) 
 #[kani::proof] #[kani::unwind(6)] pub fn c10t_array_3() { h_drop::<[Tr; 3], 3>(None, |v| ids_in_order(v.iter(), 3, true)) }
 #[kani::proof] #[kani::unwind(6)] pub fn c10t_box_nested_array() { h_drop::<Box<[[Tr; 2]; 1]>, 2>(None, |v| assert!(v[0][1].0 == 1)) }
 
+/// the same ledger element, but REPORTING a fixed encoded size (user types may override `encoded_fixed_size`; containers pick
+/// other code paths for such elements): a malformed element on a complete, known-length input must still release the prefix
+pub struct TrF(pub Tr);
+impl Decode for TrF {
+	fn decode<I: Input>(i: &mut I) -> Result<Self, Error> { Tr::decode(i).map(TrF) }
+	fn encoded_fixed_size() -> Option<usize> { Some(1) }
+}
+impl DecodeWithMemTracking for TrF {}
+#[kani::proof] #[kani::unwind(6)] pub fn c10q_fixed_size_elem_array_3() { h_drop::<[TrF; 3], 3>(None, |v| assert!(v[0].0 .0 == 0 && v[2].0 .0 == 2)) }
+#[kani::proof] #[kani::unwind(6)] pub fn c10q_fixed_size_elem_box_array_2() { h_drop::<Box<[TrF; 2]>, 2>(None, |v| assert!(v[1].0 .0 == 1)) }
+#[kani::proof] #[kani::unwind(6)] pub fn c10q_fixed_size_elem_vec_3() { h_drop::<Vec<TrF>, 3>(Some(3), |v| assert!(v.len() == 3 && v[2].0 .0 == 2)) }
+#[kani::proof] #[kani::unwind(6)] pub fn c10t_fixed_size_elem_nested() { h_drop::<[[TrF; 2]; 2], 4>(None, |v| assert!(v[1][1].0 .0 == 3)) }
+#[kani::proof] #[kani::unwind(6)] pub fn c10t_fixed_size_elem_deque_2() { h_drop::<VecDeque<TrF>, 2>(Some(2), |v| assert!(v.len() == 2)) }
+
 /// Option / Result carry a tag byte first
 #[kani::proof]
 #[kani::unwind(5)]
@@ -257,6 +271,8 @@ fn h_drop_zst<C: Decode, const N: usize>(count_prefix: Option<u32>) {
 #[kani::proof] #[kani::unwind(6)] pub fn c10q_zst_array_3() { h_drop_zst::<[Zt; 3], 3>(None) }
 #[kani::proof] #[kani::unwind(6)] pub fn c10q_zst_box_array_2() { h_drop_zst::<Box<[Zt; 2]>, 2>(None) }
 #[kani::proof] #[kani::unwind(6)] pub fn c10q_zst_vec_3() { h_drop_zst::<Vec<Zt>, 3>(Some(3)) }
+#[kani::proof] #[kani::unwind(6)] pub fn c10q_zst_box_1() { h_drop_zst::<Box<Zt>, 1>(None) }
+#[kani::proof] #[kani::unwind(6)] pub fn c10q_zst_rc_arc() { h_drop_zst::<(Rc<Zt>, Arc<Zt>), 2>(None) }
 #[kani::proof] #[kani::unwind(6)] pub fn c10t_zst_nested() { h_drop_zst::<[[Zt; 2]; 2], 4>(None) }
 #[kani::proof] #[kani::unwind(6)] pub fn c10t_zst_tuple() { h_drop_zst::<(Zt, Zt), 2>(None) }
 
